@@ -249,6 +249,20 @@ def differential(out, stream, cases, impl_out, model_out, expected, describe, no
             out.samples.append({"stream": stream, "case": clip(sample(c) if callable(sample) else c), "impl": clip(i)})
 
 
+SLOW = [0, 0.0]
+def bounded(fn):
+    """calls into the library that normally take microseconds: after three calls that took more than a second each, the remaining
+    calls of the run are not made (their outcome says so) - a run over tens of thousands of cases must end"""
+    import functools
+    @functools.wraps(fn)
+    def wrapper(*a, **k):
+        if SLOW[0] >= 3: return "not run: three earlier calls took more than a second each (the last %.1f s)" % SLOW[1]
+        t = time.time(); r = fn(*a, **k); dt = time.time() - t
+        if dt > 1.0: SLOW[0] += 1; SLOW[1] = dt
+        return r
+    return wrapper
+
+
 def clip(x, n=400):
     if isinstance(x, str) and len(x) > n: return x[:n] + "...(%d chars)" % len(x)
     if isinstance(x, (list, tuple)): return [clip(y, n) for y in x][:40]
